@@ -509,7 +509,7 @@ fn run_sizes(c: &SizeCase, dir: &std::path::Path, o: &mut Outcome) -> Verdict {
             let gen_loads = c.loads.iter().map(|(ks, ts)| (targets[gens::sel(*ks, targets.len())].clone(), *ts));
             let long_loads = long_keys.iter().flat_map(|k| [u64::MAX, 3, 0].into_iter().map(move |ts| (k.clone(), ts)));
             for (k, ts) in gen_loads.chain(long_loads) {
-                let mut tomb = false;
+                let mut tomb = crate::tables::stale_flag_for(&k, ts);
                 let v = blk.load(&k, ts, &mut tomb).map_err(|e| ("size:load-error".to_string(), format!("{e:?}")))?;
                 let (mv, mt) = model_load(&accepted, &k, ts);
                 if v != mv || tomb != mt {
@@ -564,7 +564,7 @@ pub struct CountCase {
 
 pub struct BoundaryCounts;
 
-fn count_entries(n: usize, c: &CountCase) -> Vec<Entry> {
+fn count_entries(n: usize, c: &CountCase, one_per_block: bool) -> Vec<Entry> {
     let mut out = Vec::with_capacity(n);
     let versions = c.versions.max(1) as usize;
     let mut i = 0usize;
@@ -576,7 +576,15 @@ fn count_entries(n: usize, c: &CountCase) -> Vec<Entry> {
             }
             let ts = (versions - v) as u64 * 10;
             let idx = out.len();
-            let value = if c.tomb_every > 0 && idx % c.tomb_every as usize == c.tomb_every as usize - 1 { None } else { Some(tables::value_n(idx as u32, c.value_len as usize)) };
+            // one_per_block: every value is larger than the smallest block size the options allow
+            // (4096), so every entry closes its block and the index block gets one entry per entry
+            let value = if one_per_block {
+                Some(tables::value_n(idx as u32, 4100))
+            } else if c.tomb_every > 0 && idx % c.tomb_every as usize == c.tomb_every as usize - 1 {
+                None
+            } else {
+                Some(tables::value_n(idx as u32, c.value_len as usize))
+            };
             out.push((key.clone(), ts, value));
         }
         i += 1;
@@ -679,7 +687,7 @@ fn run_counts(c: &CountCase, dir: &std::path::Path, o: &mut Outcome) -> Verdict 
     let hi = p * (r + 1) + 1;
     let mut seen = std::collections::BTreeSet::new();
     for n in lo..=hi {
-        let entries = count_entries(n, c);
+        let entries = count_entries(n, c, c.kind == CountKind::SstManyBlocks);
         match c.kind {
             CountKind::Block => {
                 // the bytes interval is out of the way: only the pair count starts a restart
@@ -687,7 +695,7 @@ fn run_counts(c: &CountCase, dir: &std::path::Path, o: &mut Outcome) -> Verdict 
                 seen.insert(restarts_of(blk.as_bytes()));
                 light_checks("block", n, &mut || blk.cursor(), &entries)?;
                 for k in [&entries[0], &entries[n / 2], &entries[n - 1]] {
-                    let mut tomb = false;
+                    let mut tomb = crate::tables::stale_flag_for(&k.0, n as u64);
                     let v = blk.load(&k.0, u64::MAX, &mut tomb).map_err(|e| ("count:block:load-error".to_string(), format!("{n} entries: load({}) failed: {e:?}", gens::show(&k.0))))?;
                     let (mv, mt) = model_load(&entries, &k.0, u64::MAX);
                     if v != mv || tomb != mt {
@@ -707,7 +715,7 @@ fn run_counts(c: &CountCase, dir: &std::path::Path, o: &mut Outcome) -> Verdict 
                     return err(format!("count:{what}:metadata"), format!("{n} entries: metadata first/last key differ from the entries"));
                 }
                 for k in [&entries[0], &entries[n / 3], &entries[n / 2], &entries[n - 1]] {
-                    let mut tomb = false;
+                    let mut tomb = crate::tables::stale_flag_for(&k.0, n as u64);
                     let v = table.load(&k.0, u64::MAX, &mut tomb).map_err(|e| (format!("count:{what}:load-error"), format!("{n} entries: load({}) failed: {e:?}", gens::show(&k.0))))?;
                     let (mv, mt) = model_load(&entries, &k.0, u64::MAX);
                     if v != mv || tomb != mt {
